@@ -24,6 +24,8 @@ type runner struct {
 	env *Env
 	b   *Bridge
 	rng *rand.Rand
+	// names of the fields embedded by value (see dupkeys.go)
+	byValue map[string]bool
 }
 
 func exclSexp(excl []string) string {
@@ -46,6 +48,10 @@ func (x *runner) decOp(f Fmt, t Ty, data []byte, excl []string, ignore int) stri
 func (x *runner) ask(op, impl, sig string) string {
 	if x.cfg.Driver == nil {
 		return ""
+	}
+	if why := x.outsideModel(op); why != "" {
+		x.r.Unmodelled[why]++
+		return why
 	}
 	x.r.Ops++
 	m := x.cfg.Driver.MustAsk(op)
